@@ -690,12 +690,29 @@ theorem ssProvide_inv {cfg : SsCfg} {s s' : SsSt} {u d0 d1 : Nat} (hI : SsInv s)
         show s.sup + share = s.lpPair + lpSum (s.users.set u _)
         rw [e]; omega
 
+theorem ssCollectSide_inv {bal pend b' p' : Nat} (hle : pend ≤ bal)
+    (h : ssCollectSide bal pend = .ok (b', p')) : p' ≤ b' := by
+  unfold ssCollectSide at h
+  split at h
+  · obtain ⟨b, hb, h⟩ := Res.bind_ok_inv h
+    cases h
+    exact Nat.zero_le _
+  · cases h; exact hle
+
+theorem ssCollect_inv {s s' : SsSt} (hI : SsInv s) (h : ssCollect s = .ok s') : SsInv s' := by
+  unfold ssCollect at h
+  obtain ⟨x0, h0, h⟩ := Res.bind_ok_inv h
+  obtain ⟨x1, h1, h⟩ := Res.bind_ok_inv h
+  cases h
+  exact ⟨ssCollectSide_inv hI.p0 (by simpa using h0), ssCollectSide_inv hI.p1 (by simpa using h1), hI.lp⟩
+
 theorem ssStep_inv {cfg : SsCfg} {s s' : SsSt} {op : SsOp} (hd0 : cfg.dec0 ≤ 18) (hd1 : cfg.dec1 ≤ 18)
     (hI : SsInv s) (h : ssStep cfg s op = .ok s') : SsInv s' := by
   cases op with
   | provide u a b => exact ssProvide_inv hI h
   | swap u dir off => exact ssSwapOp_inv hd0 hd1 hI h
   | withdraw u amt => exact ssWithdraw_inv hI h
+  | collect => exact ssCollect_inv hI h
 
 theorem ssReach_inv {cfg : SsCfg} (hd0 : cfg.dec0 ≤ 18) (hd1 : cfg.dec1 ≤ 18) :
     ∀ (ops : List SsOp) (s : SsSt), SsInv s → SsInv (ssReach cfg s ops) := by
